@@ -34,6 +34,12 @@ inductive Field
   | id | addressIn | addressOut | addressNat | snmpEnabled | natEnabled | dmrId | callsign | serial
   deriving DecidableEq, Repr, Inhabited
 
+/-- the Python name of the member -/
+def Field.name : Field → String
+  | .id => "id" | .addressIn => "address_in" | .addressOut => "address_out"
+  | .addressNat => "address_nat" | .snmpEnabled => "snmp_enabled" | .natEnabled => "nat_enabled"
+  | .dmrId => "dmr_id" | .callsign => "callsign" | .serial => "serial"
+
 def Field.all : List Field :=
   [.id, .addressIn, .addressOut, .addressNat, .snmpEnabled, .natEnabled, .dmrId, .callsign, .serial]
 
@@ -281,5 +287,30 @@ def runFrom (s : Store) : List Op → Store × List Res
     (rest.1, r.2 :: rest.2)
 
 def run (h : List Op) : Store × List Res := runFrom init h
+
+/-! ### the two preconditions of the C20 theorems, as decidable predicates on (state, operation)
+
+P1: no patch entry assigns `id`.  P2: `address_in` is only assigned a value that no stored record
+other than the patched one holds.  They are evaluated against the state the operation meets. -/
+
+/-- some stored record other than `except` has `address_in == v` -/
+def Store.holdsAddr (s : Store) (except : Option Nat) (v : Val) : Bool :=
+  s.refs.any (fun j => some j != except &&
+    match s.objs[j]? with | some r => r.addressIn == v | Option.none => false)
+
+def okPatch (s : Store) (target : Option Nat) (p : Patch) : Bool :=
+  p.all (fun e => e.1 != .field .id && (e.1 != .field .addressIn || !s.holdsAddr target e.2))
+
+def okOp (s : Store) : Op → Bool
+  | .matchIncoming a _ p => okPatch s (s.first (fun r => r.addressIn == a)) p
+  | .save (some i) p => okPatch s (some i) p
+  | .save Option.none _ => true
+  | .patch i p => okPatch s (some i) p
+  | _ => true
+
+/-- the preconditions hold at every operation of the history -/
+def okHist (s : Store) : List Op → Bool
+  | [] => true
+  | op :: t => okOp s op && okHist (step s op).1 t
 
 end Dmr.Storage
